@@ -80,7 +80,7 @@ fn random_fields(rng: &mut Rng, depth: u32, der: bool) -> (Dyn, Vec<Prog>, Vec<i
 }
 
 pub fn run(em: &mut Emitter, rng: &mut Rng, thorough: bool) {
-    for _ in 0..(if thorough { 60_000 } else { 6_000 }) {
+    for _ in 0..(if thorough { 240_000 } else { 6_000 }) {
         let m = rng.below(3) as u8;
         let (e, d, l) = random_fields(rng, 3, m == 2);
         let rec = Dyn::Cons(0, 16, 1, Box::new(e));
